@@ -172,8 +172,8 @@ func genC08(tier string) []Scenario {
 			if n >= 5 || c >= 3 {
 				b = 1
 			}
-			if n >= 7 {
-				b = 0
+			if n >= 7 || (c >= 3 && n >= 4 && !th) {
+				b = 0 // every completion order, no internal preemption
 			}
 			if !th && c >= 3 && n >= 7 {
 				continue // 2c+1 and 3c+2 items on 3 workers: thorough tier
@@ -245,6 +245,9 @@ func genC08(tier string) []Scenario {
 		b := 2
 		if eff >= 2 {
 			b = 1
+		}
+		if eff >= 3 {
+			b = 0
 		}
 		if th {
 			b = unbounded
